@@ -942,6 +942,25 @@ func init() {
 				w.opEndBlock()
 			}
 		}
+		// D9: a dust provider (its pro-rata refund truncates to zero on both sides) at decommission time, then the
+		// pool is created again by somebody else: no provider record may survive the decommission
+		{
+			w := newAmmWorld(rng, out, 4, -1)
+			w.fundAll()
+			w.opCreate(w.users[0], "cusdc", e18(1), big.NewInt(1000000))
+			w.opAdd(w.users[1], "cusdc", big.NewInt(1000000000000), big.NewInt(1))
+			if lp, err := w.app.ClpKeeper.GetLiquidityProvider(w.ctx, "cusdc", w.users[1].String()); err == nil {
+				u := new(big.Int).Sub(lp.LiquidityProviderUnits.BigInt(), big.NewInt(1))
+				if u.Sign() > 0 {
+					w.opRmu(w.users[1], "cusdc", u)
+				}
+			}
+			w.opSwap(w.users[2], "cusdc", "rowan", big.NewInt(200000), big.NewInt(0))
+			w.opDecom("cusdc")
+			w.opCreate(w.users[3], "cusdc", e18(1), big.NewInt(1000000))
+			w.opRm(w.users[1], "cusdc", 10000)
+			w.opRm(w.users[3], "cusdc", 5000)
+		}
 		// D8: default multiplier 0 — only the pool listed in the period earns depth rewards; the unlisted pool
 		// is three times as deep
 		for _, dist := range []bool{false, true} {
